@@ -52,3 +52,15 @@ class Ob:
         self.per_path = per_path
         self.stub_repr = stub_repr
         self.notes = notes
+
+
+def pick(pool, idx):
+    """pool[idx] for a bounded symbolic idx by an explicit comparison chain: forks on idx == j and returns the REAL pool
+    element. (Indexing a concrete list with a symbolic int makes CrossHair build a symbolic element for homogeneous
+    lists - e.g. a SymbolicType for a list of classes - which library code then treats differently from the real one.)"""
+    n = len(pool)
+    assume(0 <= idx < n)
+    for j in range(n - 1):
+        if idx == j:
+            return pool[j]
+    return pool[n - 1]
